@@ -8,6 +8,7 @@ import (
 	"time"
 
 	"verifharness/execfam"
+	"verifharness/fpfam"
 	"verifharness/rep"
 )
 
@@ -16,10 +17,20 @@ func main() {
 		fmt.Println("usage: check <property> <tier> | check dbg-exec <program.json> [prefix-json]")
 		os.Exit(2)
 	}
-	if len(os.Args) >= 3 && os.Args[2] == "--replay" {
+	if len(os.Args) >= 4 && os.Args[2] == "--replay" {
+		switch os.Args[1] {
+		case "C04", "C05", "C12":
+			os.Exit(fpfam.Replay(os.Args[3]))
+		}
 		os.Exit(execfam.ReplayExec(os.Args[3]))
 	}
 	switch os.Args[1] {
+	case "C04", "C05", "C12":
+		tier := "quick"
+		if len(os.Args) > 2 {
+			tier = os.Args[2]
+		}
+		os.Exit(fpfam.Check(os.Args[1], tier))
 	case "C01", "C02", "C03", "C06", "C07", "C13", "C14":
 		tier := "quick"
 		if len(os.Args) > 2 {
